@@ -4,7 +4,7 @@
    engine over flat rich text), Model/Styles.v (labels, sorting, BaseStyle), Model/Citations.v
    (C05: citation resolution). *)
 From Pybtex Require Import Base.Prelude Base.PyChar Base.PyStr Model.RtTypes Model.Citations Model.Template Model.Styles
-  Proofs.Template Proofs.TemplateEmit Proofs.TemplateFuel Proofs.Styles Proofs.StylesEmit.
+  Proofs.Template Proofs.TemplateEmit Proofs.TemplateFuel Proofs.Styles Proofs.StylesEmit Proofs.NameStyles Proofs.StylesRound2.
 Require Import Coq.Sorting.Permutation Coq.Sorting.Sorted.
 
 (* exactly one formatted entry per resolved citation (the citations resolved as in C05:
@@ -203,6 +203,84 @@ Theorem eval_never_out_of_fuel : forall c t, eval c t <> TFuel.
 Proof. exact eval_no_fuel_lemma. Qed.
 Print Assumptions eval_never_out_of_fuel.
 
+
+(* ---- round 2 ---- *)
+
+(* n = 0: an empty citation list, or an empty database with no citations, gives the empty bibliography
+   (it is produced, not an error), and nothing is formatted when nothing is resolved *)
+Theorem empty_citations_empty_bibliography : forall cf tbl tp db, format_bibliography cf tbl tp db (Some []) = TOk [].
+Proof. exact empty_citations_lemma. Qed.
+Print Assumptions empty_citations_empty_bibliography.
+Theorem empty_database_empty_bibliography : forall cf tbl tp cites,
+  (forall c, cites = Some c -> c = []) -> format_bibliography cf tbl tp [] cites = TOk [].
+Proof. exact empty_database_lemma. Qed.
+Print Assumptions empty_database_empty_bibliography.
+Theorem no_citation_no_entry : forall cf tbl tp db cites out,
+  format_bibliography cf tbl tp db cites = TOk out -> fst (resolved db cites (cf_mincross cf)) = [] -> out = [].
+Proof. exact no_citation_no_entry_lemma. Qed.
+Print Assumptions no_citation_no_entry.
+
+(* the name styles plain and lastfirst (modelled in Model/Template.format_name, not dumped): every name
+   token of the person -- first and middle names abbreviated when abbreviate_names, all others in full --
+   appears in the style's order, with nothing but the style's separators (space, tie, ", ") before,
+   between and after *)
+Theorem name_tokens_emitted : forall tbl ns abbr p f,
+  format_name tbl ns abbr p = TOk f ->
+  exists fi mi pl la li,
+    rich_names tbl (p_first p) = TOk fi /\ rich_names tbl (p_middle p) = TOk mi /\
+    rich_names tbl (p_prelast p) = TOk pl /\ rich_names tbl (p_last p) = TOk la /\
+    rich_names tbl (p_lineage p) = TOk li /\
+    woven (name_tokens ns abbr fi mi pl la li) f.
+Proof. exact name_tokens_emitted_lemma. Qed.
+Print Assumptions name_tokens_emitted.
+(* "abbreviated": a token without delimiter that consists of letters becomes first letter + period *)
+Theorem abbreviated_token : forall f,
+  forallb (fun p => negb (is_delim p)) f = true -> f_abbreviate f = abbr_seg f.
+Proof. exact abbreviate_simple_token. Qed.
+Print Assumptions abbreviated_token.
+
+(* the sort key (a total function: sorting_key never raises) ignores the case of the person part exactly
+   as the code does -- str.lower of the joined names -- and nothing else: braces stay, year and title are
+   compared as written (Examples below) *)
+Theorem sort_key_ignores_case_of_names : forall ps,
+  persons_key (map lower_person ps) = persons_key ps /\ lower (persons_key ps) = persons_key ps.
+Proof. exact persons_key_case_lemma. Qed.
+Print Assumptions sort_key_ignores_case_of_names.
+
+(* an entry ends with a sentence terminator -- the two exceptions are exactly the hypotheses: the entry
+   is empty (F24), or its last non-empty block is not terminated, i.e. a trailing bare word (F30) *)
+Theorem entry_terminated : forall c cs vs v,
+  evals c cs = TOk vs -> eval c (TToplevel cs) = TOk v -> vflat v <> [] ->
+  (forall w, last_truthy vs = Some w -> ends_term (vflat w) = true) ->
+  ends_term (vflat v) = true.
+Proof. exact toplevel_terminated_lemma. Qed.
+Print Assumptions entry_terminated.
+Theorem words_block_terminated : forall c sep cs vs v,
+  evals c cs = TOk vs -> eval c (TWords sep cs) = TOk v -> vflat v <> [] ->
+  (forall w, last_truthy vs = Some w -> ends_term (vflat w) = true) ->
+  ends_term (vflat v) = true.
+Proof. exact words_terminated_lemma. Qed.
+Print Assumptions words_block_terminated.
+(* F30 witness: toplevel [sentence [title], words ['In', sentence [booktitle]]] with an empty booktitle *)
+Theorem trailing_bare_word_refuted :
+  exists r, eval_top in_ctx in_like = TOk r /\ fstr r = [84; 46; 60; 110; 101; 119; 98; 108; 111; 99; 107; 62; 73; 110]%N /\
+            r <> [] /\ ends_term r = false.
+Proof. exact trailing_bare_word_refuted_lemma. Qed.
+Print Assumptions trailing_bare_word_refuted.
+
+(* FC14a (C14): names(role) reads the entry's own persons; the database is never consulted, so a role
+   inherited through crossref is reported missing although field(role) finds it *)
+Theorem names_ignores_database : forall e db db' tbl ns ab role s s2 ls,
+  eval (mkC e db tbl ns ab) (TNames role s s2 ls) = eval (mkC e db' tbl ns ab) (TNames role s s2 ls).
+Proof. exact names_ignores_database. Qed.
+Print Assumptions names_ignores_database.
+Theorem names_inherit_refuted :
+  let c := mkC fc14_child (Some [fc14_child; fc14_parent]) [] NSPlain false in
+  eval c (TField s_editor AId false) = TOk (VT (plain [69%N])) /\
+  eval c (TNames s_editor [] None None) = TMissing s_editor [99%N].
+Proof. exact names_inherit_refuted_lemma. Qed.
+Print Assumptions names_inherit_refuted.
+
 (* ---- non-vacuity ---- *)
 Definition ex_person : person := mkP [[74; 111]%N] [] [[118; 111; 110]%N] [[90; 101; 100]%N] [].
 Definition ex_tpl : tnode :=
@@ -258,3 +336,23 @@ Example crossref_cycle_example :
   eval (mkC (mkE [120%N] [] [(s_crossref, [112%N])] []) (Some [par]) [] NSPlain false) (TField s_title AId false)
   = TMissing s_title [120%N].
 Proof. vm_compute. reflexivity. Qed.
+
+Example name_tokens_example :
+  option_map fstr (match format_name [] NSLastFirst true (mkP [[74; 101; 97; 110; 45; 80; 97; 117; 108]%N] [[81; 46]%N] [[100; 101]%N] [[76; 97]%N; [90; 101; 100]%N] [[74; 114]%N]) with TOk f => Some f | _ => None end)
+  = Some (s2l "de<nbsp>La<nbsp>Zed, Jr, J.-P.<nbsp>Q.").
+Proof. vm_compute. reflexivity. Qed.
+
+(* braces are not removed from the sort key; year and title are case-sensitive *)
+Example sort_key_keeps_braces :
+  sorting_key (mkE [97%N] [] [(s_title, [123; 65; 125]%N)] [(s_author, [mkP [] [] [] [[123; 66; 125]%N] []])])
+  = ([123; 98; 125; 32; 32; 32; 32]%N, [], [123; 65; 125]%N).
+Proof. vm_compute. reflexivity. Qed.
+
+Example entry_terminated_example :
+  exists vs v, evals in_ctx [TSentence false false true (plain [c_comma; c_space]) [TField s_title AId false]] = TOk vs /\
+    eval in_ctx (TToplevel [TSentence false false true (plain [c_comma; c_space]) [TField s_title AId false]]) = TOk v /\
+    vflat v <> [] /\ (forall w, last_truthy vs = Some w -> ends_term (vflat w) = true).
+Proof.
+  eexists. eexists. split; [vm_compute; reflexivity|]. split; [vm_compute; reflexivity|]. split; [discriminate|].
+  intros w H. vm_compute in H. inversion H. reflexivity.
+Qed.
